@@ -207,6 +207,18 @@ def monitor(ctx, extended=False):
                 break
             prev = (d, vt)
             d *= step
+        # ... and of the hindered settling velocity over the concentration: a seam between two fits shows as a step up between neighbouring concentrations
+        for dfix in (6e-5, 2e-4, 1e-3, 1e-2):
+            c_, prev = 0.02, None
+            while c_ <= 0.45:
+                ctx.count('evaluations')
+                vth = He.vth_RZ(dfix, Rsd, nu, c_)
+                if not vth > 0 or (prev is not None and not vth < prev[1]):
+                    ctx.violation(f'hindered settling velocity goes from {prev[1] if prev else None!r} to {vth!r} when the concentration rises from {prev[0] if prev else None!r} to {c_!r}',
+                                  {'d': dfix, 'Rsd': Rsd, 'nu': nu, 'Cvs': [prev[0] if prev else None, c_]}, key='settling')
+                    break
+                prev = (c_, vth)
+                c_ *= 1.002 if not ctx.thorough else 1.0005
         for dfix in (6e-5, 1e-4, 3e-4, 2e-3):
             r, prev = 0.9, None
             while r < 3.1:
